@@ -5,7 +5,7 @@
    store operation at any time except destroying the contended resource - in particular the Get /
    Update / Create steps of any number of other concurrent helper calls. `run_ok` only requires that
    and that versions do not wrap around 2^64 during the run. *)
-From Verif Require Import Store Helpers HelpersProofs.
+From Verif Require Import Store Helpers HelpersProofs ConcHelpers ConcHelpersProofs.
 Open Scope N_scope.
 
 (* every call reporting success has its mutation applied exactly once on top of the then-current
@@ -47,3 +47,18 @@ Example C04_nonvacuous :
     [PDone (HOk (mkRes 1 2 3 (Some 2) 0 false [] [] 1 4 5));
      PDone (HOk (mkRes 1 2 3 (Some 3) 0 false [7] [] 1 7 5))].
 Proof. vm_compute. reflexivity. Qed.
+
+(* any number of concurrent callers: for every caller i among the calls cs (read-modify-write family, same or
+   different resources), every schedule of all callers' CoreState steps, versions not wrapping: caller i's view of
+   the run satisfies the single-call verdict - on failure nothing of it was written, on success its mutation was
+   applied exactly once on the value its committing write replaced and the returned object is the committed one *)
+Theorem C04_rmw_atomic_n_callers : forall cs i c s0 sched,
+  nth_error cs i = Some c ->
+  (match h_kind c with KUwc | KTeardown | KFin => True | KModify e => r_key e = h_key c | _ => False end) ->
+  (forall r, st_get (h_key c) s0 = Some r -> exists v, r_ver r = Some v) ->
+  (forall pre, (exists post, sched = pre ++ post) ->
+               forall r v, st_get (h_key c) (m_store (mrun cs (m_init cs s0) pre)) = Some r -> r_ver r = Some v -> v + 1 < two64) ->
+  exists o, verdict c o /\ o_store o = m_store (mrun cs (m_init cs s0) sched) /\
+            nth_error (m_pcs (mrun cs (m_init cs s0) sched)) i = Some (o_pc o).
+Proof. exact rmw_atomic_n. Qed.
+Print Assumptions C04_rmw_atomic_n_callers.
